@@ -114,6 +114,10 @@ def gen_scenario(rng: Rng, world: dict) -> dict:
         if action == "fix" and rng.chance(0.25):
             sc["cmd"] = "format"
             sc["overrides"] = {}
+    if rng.chance(0.25):
+        # an explicitly supplied config file (--config / extra_config_path), under several spellings;
+        # it travels to the workers inside the pickled FluffConfig
+        sc["extra_config"] = rng.choice(["extra_cfg/custom.cfg", "./extra_cfg/custom.cfg", "extra_cfg/../extra_cfg/custom.cfg", "~/custom.cfg", "$ABS"])
     fr = rng.random()
     if fr < 0.12:
         sc["fault"] = "task_exc"
@@ -134,7 +138,18 @@ def _cli_argv(sc: dict, world: dict, paths: list, processes: int) -> list:
             argv += ["--fixed-suffix", world["suffix"]]
     for k, v in sc["overrides"].items():
         argv += ["--" + k.replace("_", "-"), v]
+    if sc.get("extra_config"):
+        argv += ["--config", _extra_path(sc, world)]
     return argv
+
+
+EXTRA_CFG = b"[sqlfluff]\nmax_line_length = 50\n\n[sqlfluff:rules:capitalisation.keywords]\ncapitalisation_policy = lower\n"
+EXTRA_CFG_HOME = b"[sqlfluff]\nexclude_rules = LT01\n\n[sqlfluff:rules:capitalisation.keywords]\ncapitalisation_policy = upper\n"
+
+
+def _extra_path(sc: dict, world: dict) -> str:
+    p = sc["extra_config"]
+    return os.path.join(world["_root"], "proj/extra_cfg/custom.cfg") if p == "$ABS" else p
 
 
 def execute(node: Any, sc: dict, world: dict, paths: list, processes: int) -> dict:
@@ -154,6 +169,7 @@ def execute(node: Any, sc: dict, world: dict, paths: list, processes: int) -> di
             fixed_file_suffix=world["suffix"] if fix else "",
             overrides=sc["overrides"] or None,
             retain_files=not fix,
+            extra_config=_extra_path(sc, world) if sc.get("extra_config") else None,
             **kw,
         )
     return node.call("cli", argv=_cli_argv(sc, world, paths, processes), **kw)
@@ -255,6 +271,14 @@ def run_one(ctx: Any, seed: int, tier: str, replay: Optional[dict] = None) -> di
         sc["warm"] = WARM if hr.chance(0.75) else ""
     cl = ctx.cluster
     root = cl.new_root("C24-%d" % seed)
+    if sc.get("extra_config"):
+        from vsim.world import b64 as _b64
+
+        world["files"].setdefault("proj/extra_cfg/custom.cfg", {"b64": _b64(EXTRA_CFG), "mode": 0o644})
+        world["files"].setdefault("home/u/custom.cfg", {"b64": _b64(EXTRA_CFG_HOME), "mode": 0o644})
+        if "proj/extra_cfg" not in world["dirs"]:
+            world["dirs"].append("proj/extra_cfg")
+    world["_root"] = root
     initial = world_tree(world)
     log: list = []
     violations: list[dict] = []
